@@ -30,7 +30,7 @@ without reference to what the generators draw). Wave 4 ({waves.get('4',0)} chang
 purpose and is marked as such: those agents were additionally told, in prose, which
 configurations, shapes, sizes and fault kinds the generators draw and were asked for changes such
 a checker would still miss - they are adversarial to the machinery, not independent of it. Wave 5
-({waves.get('5',0)} changes) and waves 6, 7 and 8 ({waves.get('6',0)}+{waves.get('7',0)}+{waves.get('8',0)} changes) went back to the property text alone (plus the list of earlier
+({waves.get('5',0)} changes) and waves 6 to 9 ({waves.get('6',0)}+{waves.get('7',0)}+{waves.get('8',0)}+{waves.get('9',0)} changes) went back to the property text alone (plus the list of earlier
 changes to avoid).
 "yes" = caught by the quick tier of the machinery as it was when the change arrived; "after
 strengthening" = first missed, then caught after the generator or oracle was extended (the last
@@ -54,7 +54,11 @@ the same GOMAXPROCS) and history/value classes again (a codec reused after a dam
 repository errors other than the sentinel, long JSON documents, near-duplicate header names);
 wave 8 one oracle gap (C13's direct evaluation went through the helper under test) and value
 classes (bare carriage returns, defined field types, float32/int element types, names ending in
-the letters of the file suffix, all non-period parameters zero).
+the letters of the file suffix, all non-period parameters zero); wave 9 two scheduler/seam gaps
+(a go statement was no scheduling point for the spawner; results were never compared across
+GOMAXPROCS values), one harness limit turned into a verdict (an endless retry loop), the process's
+local time zone, and more value classes (Stringer integer types, fractional counts, NaN inputs,
+shifts by hundreds, one member listed twice).
 
 | seeded change | wave | what it does | needs | caught at once? | check and verdict |
 |---|---|---|---|---|---|
